@@ -1,0 +1,40 @@
+//go:build verif
+
+package types
+
+// Contracts for daemons/server/types/pricefeed, read by /verif/bin/govc. Comment-only:
+// compiled only with -tags verif and adds no code.
+//
+// Lock discipline of the price cache (C20). The cache is one MarketToExchangePrices whose embedded mutex guards
+// the market map and everything reachable from it: the per-market ExchangeToPrice objects, their exchange maps
+// and the PriceTimestamp entries. locked() is the ghost flag "the executing goroutine holds that mutex".
+// Every access to a guarded field generates an obligation that the flag is set; the ExchangeToPrice methods, which
+// have no lock of their own, require it from their caller. With every access inside the critical section of the
+// single mutex, concurrent calls of the public methods are serialised, so the sequential contracts of
+// PriceTimestamp.UpdatePrice / GetValidPrice and lib.Median describe every interleaving (the mutual-exclusion
+// argument itself is the meta-theorem this relies on; it is not derived by the verifier).
+
+//@ guarded MarketToExchangePrices.marketToExchangePrices
+//@ guarded ExchangeToPrice.exchangeToPriceTimestamp
+
+//@ func (mte *MarketToExchangePrices).UpdatePrices(updates) ()
+//@ requires [receiver_present] mte != nil && mte.marketToExchangePrices != nil
+//@ requires [updates_present] forall j in [0, len(updates)) :: updates[j] != nil
+//@ requires [lock_free_on_entry] !locked()
+//@ ensures [lock_released_on_return] !locked()
+
+//@ func (mte *MarketToExchangePrices).GetValidMedianPrices(marketParams, readTime) (prices)
+//@ requires [receiver_present] mte != nil
+//@ requires [lock_free_on_entry] !locked()
+//@ ensures [lock_released_on_return] !locked()
+
+//@ func (etp *ExchangeToPrice).UpdatePrices(updates) ()
+//@ requires [receiver_present] etp != nil && etp.exchangeToPriceTimestamp != nil
+//@ requires [updates_present] forall j in [0, len(updates)) :: updates[j] != nil && updates[j].LastUpdateTime != nil
+//@ requires [caller_holds_the_cache_lock] locked()
+//@ ensures [lock_still_held] locked()
+
+//@ func (etp *ExchangeToPrice).GetValidPrices(cutoffTime) (prices)
+//@ requires [receiver_present] etp != nil
+//@ requires [caller_holds_the_cache_lock] locked()
+//@ ensures [lock_still_held] locked()
